@@ -150,7 +150,16 @@ public:
         }
 
         // Solver object
-        m_eigs = new SymEigsSolver<SVDMatOp<Scalar>>(*m_op, ncomp, ncv);
+        // If its constructor rejects (ncomp, ncv), release the operator allocated above before propagating
+        try
+        {
+            m_eigs = new SymEigsSolver<SVDMatOp<Scalar>>(*m_op, ncomp, ncv);
+        }
+        catch (...)
+        {
+            delete m_op;
+            throw;
+        }
     }
 
     // Destructor
